@@ -20,6 +20,7 @@ DOC = {
         'C08.R6': 'for every explicitly typed value_parser: <P as TypedValueParser>::Value == the T of remove_one::<T>/remove_many::<T> for the same argument id',
         'C08.R7': 'GroupConfig::rf_over() does not depend on `transform`',
         'C08.R11': 'the order that decides which replicas are kept by default, and that --priority top / bottom refer to, is the order of the report: FileSubGroup::group puts the root groups first, so partition restores the input order with a stable sort keyed by the original position (recorded before grouping) before the priorities are applied and the keep/drop split is made',
+        'C08.R12': 'a --keep-path / --path pattern protects / selects the files it names also when the directory in it is spelled through a symbolic link: the patterns of the dedupe commands pass abs_pattern, which resolves the literal directory of the pattern (re-evaluates C09.R17)',
         'C08.R10': 'the path patterns of the dedupe commands (--path, --keep-path) are matched against the absolute reported paths, so - like the path patterns of group (PathSelector::include_paths / exclude_paths) - they pass abs_pattern (anchoring of relative patterns at the working directory) on every path to dedupe(); sibling agreement between the two commands',
         'C08.R9': 'the isolate roots that reach partition - inherited from the header or given on the dedupe command line - are in the canonical form of the reported paths (re-evaluates C06.R6)',
         'C08.R8': 'the top-up to n counts retained sub-groups (re-evaluates C02.R1)',
@@ -39,6 +40,8 @@ def run(ctx):
     from . import c06
     reevaluate(ctx, 'C08.R9', c06.r6)
     r10(ctx)
+    from . import c09
+    reevaluate(ctx, 'C08.R12', c09.r17)
     r11(ctx)
     r4(ctx)
     r5(ctx)
